@@ -1564,7 +1564,7 @@ def check_c13(mt, sess):
     if dups:
         raise core.Violation("C13", "duplicate-name", {"names": dups[:5]}, {"temp": bool(re.match(r"^\.L|^\$L", dups[0]))})
     # every copy's references to temporary labels stay inside the copy
-    temp = re.compile(r"^(\.L|\$L|L\$).*_(\d+)$")
+    temp = re.compile(r"^(\.L|\$L|L\$|Ls\d).*_(\d+)$")
     for c in sess.captures:
         cap = c["cap"]
         if cap is None:
